@@ -12,6 +12,13 @@ require (
 	github.com/acarl005/stripansi v0.0.0-20180116102854-5a71ef0e047d // indirect
 	github.com/rivo/uniseg v0.4.7 // indirect
 	golang.org/x/sys v0.30.0 // indirect
+	mcrt v0.0.0 // indirect
 )
 
 replace github.com/vbauerster/mpb/v8 => /repo
+
+require scen v0.0.0
+
+replace scen => /verif/scen
+
+replace mcrt => /verif/mcrt
